@@ -171,20 +171,53 @@ def _worker_init(modname, idx_base):
     random.seed(0)          # nobody should use the global PRNG; pin it anyway
 
 
-def _worker_chunk(args):
-    seeds, tier, per_run_timeout = args
+def _run_chunk_here(seeds, tier, per_run_timeout):
     out = []
-    for s in seeds:
+    for i, s in enumerate(seeds):
         faulthandler.dump_traceback_later(per_run_timeout, exit=True)
         try:
             r = run_seed(_worker_mod, s, tier)
-            out.append(r.summary())
+            d = r.summary()
+            d['chunk_before'] = list(seeds[:i])
+            out.append(d)
         except BaseException as e:      # noqa: BLE001  harness error
             out.append({'seed': s, 'harness_error':
                         ''.join(traceback.format_exception(e))[-4000:]})
         finally:
             faulthandler.cancel_dump_traceback_later()
     return out
+
+
+def _worker_chunk(args):
+    """Run one chunk of seeds in a *forked child of the worker*: every chunk
+    starts from the same pristine post-import process state, so that anything a
+    run leaves behind in process-global state can only reach later runs of the
+    same chunk - and the chunk prefix is then a complete, replayable history."""
+    import pickle
+    seeds, tier, per_run_timeout = args
+    r, w = os.pipe()
+    pid = os.fork()
+    if pid == 0:
+        code = 0
+        try:
+            os.close(r)
+            out = _run_chunk_here(seeds, tier, per_run_timeout)
+            data = pickle.dumps(out)
+            with os.fdopen(w, 'wb') as f:
+                f.write(data)
+        except BaseException:           # noqa: BLE001
+            traceback.print_exc()
+            code = 3
+        finally:
+            os._exit(code)
+    os.close(w)
+    with os.fdopen(r, 'rb') as f:
+        data = f.read()
+    _, status = os.waitpid(pid, 0)
+    if not data:
+        return [{'seed': seeds[0], 'harness_error':
+                 f'chunk child died (status {status}) while running seeds {seeds[0]}..{seeds[-1]}'}]
+    return pickle.loads(data)
 
 
 def run_batch(modname, seeds, tier, workers=None, chunk=25, per_run_timeout=120,
@@ -222,97 +255,167 @@ def run_batch(modname, seeds, tier, workers=None, chunk=25, per_run_timeout=120,
 
 
 # ----------------------------------------------------------------------------
-# minimisation (ddmin over the op list, then per-op simplification)
+# pristine children
 # ----------------------------------------------------------------------------
 
-def _fails_same(mod, cfg, desc, ops, clause):
-    try:
-        r = execute(mod, cfg, desc, ops=ops)
-    except Exception:       # noqa: BLE001  harness trouble on an edited list
-        return None
-    if r.violation and r.violation['clause'] == clause:
-        return r
-    return None
+def forked(fn, *args, timeout=300):
+    """Run fn(*args) in a forked child (same pristine post-import state every
+    time) and return its result; what the call leaves behind in process-global
+    state dies with the child."""
+    import pickle
+    r, w = os.pipe()
+    pid = os.fork()
+    if pid == 0:
+        code = 0
+        try:
+            os.close(r)
+            faulthandler.dump_traceback_later(timeout, exit=True)
+            data = pickle.dumps(('ok', fn(*args)))
+        except BaseException as e:      # noqa: BLE001
+            data = pickle.dumps(('err', ''.join(traceback.format_exception(e))[-3000:]))
+        try:
+            with os.fdopen(w, 'wb') as f:
+                f.write(data)
+        finally:
+            os._exit(code)
+    os.close(w)
+    with os.fdopen(r, 'rb') as f:
+        data = f.read()
+    os.waitpid(pid, 0)
+    if not data:
+        raise HarnessError('forked child died without a result')
+    kind, val = pickle.loads(data)
+    if kind == 'err':
+        raise HarnessError('forked child failed:\n' + val)
+    return val
 
 
-def minimise(mod, cfg, desc, ops, clause, budget=400):
-    """Return (cfg, desc, ops) minimal w.r.t. deletion of ops (1-minimal as far
-    as the budget allows) that still violates the same clause."""
-    calls = [0]
+def _replay_summary(doc):
+    r = replay_doc(doc)
+    return {'violation': r.violation, 'ops': r.ops, 'rejected': r.rejected,
+            'log_digest': r.log_digest, 'steps': r.steps}
 
-    def test(cand):
-        if calls[0] >= budget:
-            return None
-        calls[0] += 1
-        return _fails_same(mod, cfg, desc, cand, clause)
 
-    base = test(ops)
-    if base is None:
-        return None
-    ops = list(base.ops)            # drops unresolvable / unexecuted tail
+def regenerate_runs(modname, seeds, tier):
+    """(cfg, desc, ops) of the given seeds, executed in order in one process."""
+    mod = importlib.import_module(modname)
+    out = []
+    for s in seeds:
+        r = run_seed(mod, s, tier)
+        out.append({'seed': s, 'cfg': r.cfg, 'desc': r.desc, 'ops': r.ops})
+    return out
+
+
+# ----------------------------------------------------------------------------
+# minimisation (ddmin over prelude runs and over the op list, then per-op
+# simplification); every candidate is executed in a pristine forked child
+# ----------------------------------------------------------------------------
+
+def _ddmin(items, test):
+    """Classic ddmin; test(list) -> truthy if the candidate still fails."""
     n = 2
-    while len(ops) >= 2 and calls[0] < budget:
-        size = max(1, len(ops) // n)
+    while len(items) >= 2:
+        size = max(1, len(items) // n)
         reduced = False
-        for start in range(0, len(ops), size):
-            cand = ops[:start] + ops[start + size:]
-            r = test(cand)
-            if r is not None:
-                ops = list(r.ops)
+        for start in range(0, len(items), size):
+            cand = items[:start] + items[start + size:]
+            if test(cand):
+                items = cand
                 n = max(n - 1, 2)
                 reduced = True
                 break
         if not reduced:
             if size == 1:
                 break
-            n = min(len(ops), n * 2)
-    # per-op simplification offered by the world module
+            n = min(len(items), n * 2)
+    if len(items) == 1 and test([]):
+        items = []
+    return items
+
+
+def minimise(doc, clause, budget=400):
+    """doc: {'module','cfg','desc','ops','prelude'}.  Returns (doc, calls) or None."""
+    calls = [0]
+    mod = importlib.import_module(doc['module'])
+
+    def fails(cand_doc):
+        if calls[0] >= budget:
+            return None
+        calls[0] += 1
+        try:
+            r = forked(_replay_summary, cand_doc)
+        except HarnessError:
+            return None
+        if r['violation'] and r['violation']['clause'] == clause:
+            return r
+        return None
+
+    base = fails(doc)
+    if base is None:
+        return None
+    doc = dict(doc)
+    doc['ops'] = list(base['ops'])
+    # 1. earlier runs of the process
+    if doc.get('prelude'):
+        doc['prelude'] = _ddmin(list(doc['prelude']),
+                                lambda c: fails(dict(doc, prelude=c)) is not None)
+    # 2. ops of the failing run
+    def test_ops(c):
+        r = fails(dict(doc, ops=c))
+        return r is not None
+    doc['ops'] = _ddmin(list(doc['ops']), test_ops)
+    # 3. ops of the remaining prelude runs
+    for i in range(len(doc.get('prelude', []))):
+        def test_pre(c, i=i):
+            pre = list(doc['prelude'])
+            pre[i] = dict(pre[i], ops=c)
+            return fails(dict(doc, prelude=pre)) is not None
+        newops = _ddmin(list(doc['prelude'][i]['ops']), test_pre)
+        pre = list(doc['prelude'])
+        pre[i] = dict(pre[i], ops=newops)
+        doc['prelude'] = pre
+    # 4. per-op simplification offered by the world module
     simp = getattr(mod, 'simplify_op', None)
     if simp:
         changed = True
         while changed and calls[0] < budget:
             changed = False
-            for i, op in enumerate(ops):
+            for i, op in enumerate(doc['ops']):
                 for cand_op in simp(op):
-                    cand = ops[:i] + [cand_op] + ops[i + 1:]
-                    r = test(cand)
-                    if r is not None:
-                        ops = cand
+                    cand = doc['ops'][:i] + [cand_op] + doc['ops'][i + 1:]
+                    if fails(dict(doc, ops=cand)) is not None:
+                        doc['ops'] = cand
                         changed = True
                         break
-    # try smaller world descriptions offered by the module
-    simpd = getattr(mod, 'simplify_desc', None)
-    if simpd:
-        for cand_desc in simpd(cfg, desc):
-            if calls[0] >= budget:
-                break
-            calls[0] += 1
-            if _fails_same(mod, cfg, cand_desc, ops, clause):
-                desc = cand_desc
-                break
-    return cfg, desc, ops, calls[0]
+    return doc, calls[0]
 
 
 # ----------------------------------------------------------------------------
 # replay files
 # ----------------------------------------------------------------------------
 
-def write_replay(path, prop, modname, seed, cfg, desc, ops, violation, extra=None):
+def write_replay(path, doc):
     os.makedirs(os.path.dirname(path), exist_ok=True)
-    doc = {'property': prop, 'module': modname, 'seed': seed, 'cfg': cfg,
-           'desc': desc, 'ops': ops, 'violation': violation}
-    if extra:
-        doc.update(extra)
     with open(path, 'w') as f:
         json.dump(doc, f, indent=1, sort_keys=True, default=repr)
     return path
 
 
+def replay_doc(doc) -> RunResult:
+    mod = importlib.import_module(doc['module'])
+    for pre in doc.get('prelude', []):
+        # earlier runs of the same process: executed for their side effects only
+        try:
+            execute(mod, pre['cfg'], pre['desc'], ops=pre['ops'], seed=pre.get('seed'))
+        except Exception:       # noqa: BLE001
+            pass
+    return execute(mod, doc['cfg'], doc['desc'], ops=doc['ops'], seed=doc.get('seed'))
+
+
 def replay_file(path) -> RunResult:
     with open(path) as f:
         doc = json.load(f)
-    mod = importlib.import_module(doc['module'])
-    return execute(mod, doc['cfg'], doc['desc'], ops=doc['ops'], seed=doc.get('seed'))
+    return replay_doc(doc)
 
 
 def replay_in_fresh_process(path, hashseed='0'):
